@@ -3,6 +3,7 @@ module kyverif
 go 1.25.0
 
 require (
+	go.dedis.ch/fixbuf v1.0.3
 	go.dedis.ch/kyber/v4 v4.0.0
 	golang.org/x/crypto v0.48.0
 )
